@@ -10,7 +10,7 @@ import (
 
 func init() {
 	register(&PropDef{
-		ID: "C13", Level: "exploration", Quick: 6000, Thorough: 600000, QuickCap: 100,
+		ID: "C13", Level: "exploration", Quick: 18000, Thorough: 600000, QuickCap: 100,
 		Rule:   "each run = one engine, a drawn server-clock trajectory (unaligned, jumping, stepping back), 1-30 requests mixing ReadModifyWriteRow rule lists (1-4 rules, repeated columns, append/increment, extreme amounts, unknown families, unset rules, empty lists) with SetCell/Delete requests that create prior states (cells in the future of the clock, non-8-byte and empty values, several versions); response cells and the row read back are compared with the model after every request; distinct = hash of (engine, op shapes); non-trivial = at least 2 requests",
 		Real:   []string{"bttest ReadModifyWriteRow, MutateRow, ReadRows", "btree / goleveldb-mem / goleveldb-disk engines"},
 		Stub:   []string{"gRPC transport (direct calls)", "server clock (simulator-owned)"},
